@@ -394,7 +394,7 @@ func fileSize(scale string) int {
 	return map[string]int{"2E4": 2500, "1E6": 125000, "1E8": 12500000}[scale]
 }
 
-// makeTree writes nf sample files (nested directory, .bin and .dat, plus a .txt and an empty sub-directory).
+// makeTree writes nf sample files (nested directory, .bin and .dat, plus a .txt, hidden non-sample files, a hidden and an empty sub-directory).
 func makeTree(root string, nf, size int, dotDirs bool) (in string, names []string, data map[string][]byte) {
 	data = map[string][]byte{}
 	in, sub := "in", "sub"
@@ -408,6 +408,13 @@ func makeTree(root string, nf, size int, dotDirs bool) (in string, names []strin
 	}
 	_ = os.WriteFile(filepath.Join(root, in, "notes.txt"), []byte("not a sample"), 0o644)
 	_ = os.WriteFile(filepath.Join(root, in, sub, "readme.md"), []byte("not a sample either"), 0o644)
+	// hidden non-sample files and a hidden directory next to the samples (what file managers and version control leave behind):
+	// they sort first in every directory, so a walk that stops at them loses every sample of that directory
+	_ = os.WriteFile(filepath.Join(root, in, ".DS_Store"), []byte{0, 0, 0, 1, 'B', 'u', 'd', '1'}, 0o644)
+	_ = os.WriteFile(filepath.Join(root, in, sub, ".gitkeep"), nil, 0o644)
+	_ = os.WriteFile(filepath.Join(root, in, sub, "deeper", ".hidden"), []byte("x"), 0o644)
+	_ = os.MkdirAll(filepath.Join(root, in, ".git", "objects"), 0o755)
+	_ = os.WriteFile(filepath.Join(root, in, ".git", "config"), []byte("[core]"), 0o644)
 	for i := 0; i < nf; i++ {
 		var p string
 		switch i % 3 {
@@ -966,7 +973,7 @@ func Run(ctx *common.Ctx) int {
 			_ = os.RemoveAll(dir)
 		}
 	}
-	samples = append(samples, map[string]interface{}{"family": "end-to-end", "runs": e2e, "configs": "2*10^4-bit and 10^6-bit directories of 1, 5, 33 files (nested, .bin and .dat, a .txt and an empty directory present) with -n 1, 4, 64"})
+	samples = append(samples, map[string]interface{}{"family": "end-to-end", "runs": e2e, "configs": "2*10^4-bit and 10^6-bit directories of 1, 5, 33 files (nested, .bin and .dat, a .txt, hidden non-sample files (.DS_Store, .gitkeep, .hidden, .git/config) and an empty directory present) with -n 1, 4, 64"})
 	sigs := []string{}
 	for k := range m.Signatures {
 		sigs = append(sigs, k)
